@@ -1,15 +1,15 @@
-\* flow B: deviations on = what the current eval.c does (turn one off after its fix: commit)
+\* flow B: all deviations off: every defect has its fix: commit (harness/props/c04.py FIXED)
 SPECIFICATION Spec
 CONSTANTS
   Real = TRUE
   CharSigned = TRUE
-  Dev_LogicalReturnsOperand = TRUE
-  Dev_BoolCastTruncates = TRUE
-  Dev_FloatToUnsignedRejectsNeg = TRUE
-  Dev_FloatCondNotFolded = TRUE
-  Dev_UnevaluatedOperandFolded = TRUE
-  Dev_NoDivisionGuard = TRUE
-  Dev_CondSameTypeNoPromotion = TRUE
-  Dev_BareAddressMinusRejected = TRUE
+  Dev_LogicalReturnsOperand = FALSE
+  Dev_BoolCastTruncates = FALSE
+  Dev_FloatToUnsignedRejectsNeg = FALSE
+  Dev_FloatCondNotFolded = FALSE
+  Dev_UnevaluatedOperandFolded = FALSE
+  Dev_NoDivisionGuard = FALSE
+  Dev_CondSameTypeNoPromotion = FALSE
+  Dev_BareAddressMinusRejected = FALSE
 INVARIANTS Inv_Judge
 CHECK_DEADLOCK FALSE
